@@ -410,7 +410,7 @@ impl SymExpr {
         match self {
             Self::Value(_) | Self::Var(_) => self.clone(),
             Self::Neg(expr) => match Arc::unwrap_or_clone(expr).simplify_canonical() {
-                SymExpr::Value(x) => SymExpr::Value(-x),
+                SymExpr::Value(x) if x != i32::MIN => SymExpr::Value(-x),
                 SymExpr::Neg(inner) => Arc::unwrap_or_clone(inner),
                 expr => Self::Neg(expr.into()),
             },
@@ -421,7 +421,9 @@ impl SymExpr {
                 match (lhs, rhs) {
                     (SymExpr::Value(0), rhs) => rhs,
                     (lhs, SymExpr::Value(0)) => lhs,
-                    (SymExpr::Value(x), SymExpr::Value(y)) => SymExpr::Value(x + y),
+                    (SymExpr::Value(x), SymExpr::Value(y)) if x.checked_add(y).is_some() => {
+                        SymExpr::Value(x + y)
+                    }
                     (lhs, SymExpr::Neg(rhs)) if lhs == *rhs => SymExpr::Value(0),
                     (lhs, rhs) => lhs + rhs,
                 }
@@ -432,7 +434,9 @@ impl SymExpr {
 
                 match (lhs, rhs) {
                     (lhs, SymExpr::Value(0)) => lhs,
-                    (SymExpr::Value(x), SymExpr::Value(y)) => SymExpr::Value(x - y),
+                    (SymExpr::Value(x), SymExpr::Value(y)) if x.checked_sub(y).is_some() => {
+                        SymExpr::Value(x - y)
+                    }
                     (lhs, rhs) if lhs == rhs => SymExpr::Value(0),
                     (lhs, rhs) => lhs - rhs,
                 }
@@ -444,7 +448,9 @@ impl SymExpr {
                 match (lhs, rhs) {
                     (SymExpr::Value(1), rhs) => rhs,
                     (lhs, SymExpr::Value(1)) => lhs,
-                    (SymExpr::Value(x), SymExpr::Value(y)) => SymExpr::Value(x * y),
+                    (SymExpr::Value(x), SymExpr::Value(y)) if x.checked_mul(y).is_some() => {
+                        SymExpr::Value(x * y)
+                    }
                     (lhs, rhs) => lhs * rhs,
                 }
             }
@@ -455,10 +461,14 @@ impl SymExpr {
 
                 match (lhs, rhs) {
                     (lhs, SymExpr::Value(1)) => lhs,
-                    (SymExpr::Value(x), SymExpr::Value(y)) if y != 0 => SymExpr::Value(x / y),
+                    (SymExpr::Value(x), SymExpr::Value(y)) if x.checked_div(y).is_some() => {
+                        SymExpr::Value(x / y)
+                    }
                     // x / b / c => x / (b * c)
                     (SymExpr::Div(lhs, c1), c2) => match (&*c1, c2) {
-                        (SymExpr::Value(c1), SymExpr::Value(c2)) if *c1 != 0 && c2 != 0 => {
+                        (SymExpr::Value(c1), SymExpr::Value(c2))
+                            if *c1 != 0 && c2 != 0 && c1.checked_mul(c2).is_some() =>
+                        {
                             (*lhs).clone() / SymExpr::Value(c1 * c2)
                         }
                         (c1, c2) => (*lhs).clone() / (c1.clone() * c2),
@@ -472,7 +482,7 @@ impl SymExpr {
 
                 match (lhs, rhs) {
                     (lhs, SymExpr::Value(1)) => lhs,
-                    (SymExpr::Value(x), SymExpr::Value(y)) if y != 0 => {
+                    (SymExpr::Value(x), SymExpr::Value(y)) if x.checked_div(y).is_some() => {
                         SymExpr::Value(div_ceil(x, y))
                     }
                     // x/x => 1
